@@ -242,7 +242,7 @@ pub fn main(mode: Mode) -> i32 {
             ctx.run_regressions(&iso);
             ctx.run_known_reproducers(&iso);
             ctx.run_enum(&iso, corpus_cases());
-            let n = ctx.n(4_000, 80_000);
+            let n = ctx.n(8_000, 120_000);
             ctx.run_search(&iso, n, 160, 150);
             if ctx.thorough() || std::env::var("VERIF_FUZZ").is_ok() {
                 // in-process (the fuzzer needs coverage feedback); artifacts are re-judged through the isolated path
